@@ -126,6 +126,31 @@ func genSlogAttrs(t *rapid.T, max int, labels map[string]bool, taken map[string]
 
 // ---------- (a) handler ----------
 
+// decoy derives (and drops) further handlers from a handler that already has a derived child:
+// siblings must not influence each other.
+func decoy(t *rapid.T, parent logslog.Handler, labels map[string]bool) {
+	n := rapid.IntRange(0, 2).Draw(t, "decoySiblings")
+	for i := 0; i < n; i++ {
+		labels["sibling-handlers"] = true
+		if rapid.Bool().Draw(t, "decoyGroup") {
+			_ = parent.WithGroup("decoygroup")
+		} else {
+			_ = parent.WithAttrs([]logslog.Attr{logslog.String("decoy", "must never be printed"), logslog.Int("decoy2", i)})
+		}
+	}
+}
+
+func hasTopLevelError(as []vlib.ExpAttr) bool {
+	for _, a := range as {
+		if !a.IsGroup {
+			if _, ok := a.Val.V.(error); ok {
+				return true
+			}
+		}
+	}
+	return false
+}
+
 type deriv struct {
 	Group string
 	Attrs []logslog.Attr
@@ -177,7 +202,9 @@ func TestHandler(t *testing.T) {
 					continue
 				}
 				taken[g] = true
+				parent := h
 				h = h.WithGroup(g)
+				decoy(t, parent, labels)
 				chain = append(chain, deriv{Group: g})
 				taken = map[string]bool{} // keys below the new group live in their own namespace
 			} else {
@@ -185,7 +212,9 @@ func TestHandler(t *testing.T) {
 				if len(as) == 0 {
 					continue
 				}
+				parent := h
 				h = h.WithAttrs(as)
+				decoy(t, parent, labels)
 				chain = append(chain, deriv{Attrs: as, Exp: exp})
 			}
 		}
@@ -281,7 +310,7 @@ func TestHandler(t *testing.T) {
 					}
 				}
 				exp.LevelName = gotLevel
-				prob = vlib.CheckLogfmtRecord(p, exp, !vlib.ProductionMode())
+				prob = vlib.CheckLogfmtRecord(p, exp, !vlib.ProductionMode() && hasTopLevelError(vlib.Normalize(exp.Attrs)))
 			default:
 				txt := vlib.SimulateSGR(p).Text
 				if !strings.Contains(txt, "adapted") {
@@ -307,7 +336,7 @@ func TestHandler(t *testing.T) {
 		}
 	classify:
 		key := ""
-		if labels["derived-handler"] || labels["group"] || labels["logvaluer"] || labels["non-standard-level"] || labels["any"] {
+		if labels["derived-handler"] || labels["sibling-handlers"] || labels["group"] || labels["logvaluer"] || labels["non-standard-level"] || labels["any"] {
 			key = fmt.Sprintf("%s|%v|%d|%d|%s|%v|%v", format, L, int(level), len(chain), vlib.JoinSorted(labels), direct, wantEmit)
 		}
 		ls := []string{"format=" + format, fmt.Sprintf("emit=%v", wantEmit)}
